@@ -142,6 +142,14 @@ CHECKS["C20"] = dict(
          "Does NOT decide equality of whole runs (composition of these facts over the instruction loop, argued).",
     design="DESIGN.md §6 C20")
 
+CHECKS["C18"] = dict(
+    technique="abstract interpretation of int_13/int_21 with AH fixed to each documented function (bit domain for the register frame, intervals for bounds/overflow sites, dependency sets of every memory address) + partial evaluation of the driver's INT arms and of the services over all 256 AH values + control-dependence/may-depend analysis of the AH=0Ah copy loop",
+    text="Decides: which of the 256 AH values the driver lets through, which the services act on and that both equal the documented sets, with every other value ending "
+         "in a printed diagnostic and return; per service the frame (only AL changes; AH=2 copies DL; AH=1/2 write no memory; int_13 takes &VM), the registers each memory "
+         "address depends on (DS:DX buffer, ES:BP string), the loop bounds (CX, DL), every bounds/overflow site with all registers and input free, and that the AH=0Ah "
+         "copy loop is control dependent on the capacity byte and the count on capacity and input. Does NOT decide the characters written to stdout.",
+    design="DESIGN.md §6 C18")
+
 NOT_YET = {}
 
 
